@@ -129,4 +129,61 @@ def depthS : List F → Nat
   | [] => 0
   | e :: r => max (depth e) (1 + depthS r)
 
+/-! ### statement lists with conditionals -/
+
+/-- a statement list: expression statements and `if c { … } else { … }` (an absent else = the empty list) -/
+inductive Sts where
+  | nil
+  | expr (x : F) (rest : Sts)
+  | ite (c : F) (a b : Sts) (rest : Sts)
+  deriving Inhabited
+
+/-- definitional semantics: the value of the last statement (`last` = the value so far, `none` at the start); an `if` statement has the
+    value `nv` (null — the empty string inside a template hole) whatever its branch computed; the first failure ends the list -/
+def evalStsA (z : Bool) (env : Nat) (nv : Val) : Option Val → Heap → Sts → Heap × Res (Option Val)
+  | last, h, .nil => (h, .ok last)
+  | _, h, .expr x rest =>
+    (match evalF z env h x with
+     | (h1, .ok v) => evalStsA z env nv (some v) h1 rest
+     | (h1, .err m) => (h1, .err m)
+     | (h1, .panic s) => (h1, .panic s)
+     | (h1, .unsup w) => (h1, .unsup w)
+     | (h1, .diverge) => (h1, .diverge))
+  | _, h, .ite c a b rest =>
+    (match evalF z env h c with
+     | (h1, .ok vc) =>
+       (match (if asBool h1 vc then evalStsA z env nv none h1 a else evalStsA z env nv none h1 b) with
+        | (h2, .ok _) => evalStsA z env nv (some nv) h2 rest
+        | r => r)
+     | (h1, .err m) => (h1, .err m)
+     | (h1, .panic s) => (h1, .panic s)
+     | (h1, .unsup w) => (h1, .unsup w)
+     | (h1, .diverge) => (h1, .diverge))
+
+def evalSts (z : Bool) (env : Nat) (nv : Val) (h : Heap) (ss : Sts) : Heap × Res (Option Val) := evalStsA z env nv none h ss
+
+def compileSts : Sts → List Instr
+  | .nil => []
+  | .expr x rest => compile x ++ compileSts rest
+  | .ite c a b rest =>
+    compile c ++ [.blockPush, .jne (some ((compileSts a).length + 1))] ++ compileSts a ++ [.jmp (some (compileSts b).length)] ++ compileSts b ++
+      [.blockPop] ++ compileSts rest
+
+/-- stack slots a statement list leaves: one per expression statement, two per `if` (the condition's stale slot and its value) -/
+def slotsSts : Sts → Nat
+  | .nil => 0
+  | .expr _ rest => 1 + slotsSts rest
+  | .ite _ _ _ rest => 2 + slotsSts rest
+
+def depthSts : Sts → Nat
+  | .nil => 0
+  | .expr x rest => max (depth x) (1 + depthSts rest)
+  | .ite c a b rest => max (depth c) (max (depthSts a) (max (depthSts b) (2 + depthSts rest)))
+
+/-- nesting of statement blocks -/
+def nestSts : Sts → Nat
+  | .nil => 0
+  | .expr _ rest => nestSts rest
+  | .ite _ a b rest => max (1 + max (nestSts a) (nestSts b)) (nestSts rest)
+
 end DS.Frag
